@@ -417,6 +417,14 @@ def pattern_building(m: ModuleInfo, res: CheckResult) -> None:
     if not (len(rets) == 1 and norm(rets[0].value) in (f"{ps[0]}[{ps[1]}]", f"{ps[0]}.__getitem__({ps[1]})")):
         res.add(Finding("C10", "P.getattr", m.rel, "LocStackPattern.__getattr__", "; ".join(norm(r) for r in rets),
                         "P.name must be P['name'] (attribute access delegates to item access unchanged)", fn.lineno))
+    # ... and the name reaches it unchanged: the parameter is never rebound on the way
+    for st in ast.walk(fn):
+        tgts = st.targets if isinstance(st, ast.Assign) else [st.target] if isinstance(st, (ast.AugAssign, ast.AnnAssign, ast.NamedExpr)) else []
+        for t in tgts:
+            if any(isinstance(x, ast.Name) and x.id == ps[1] for x in ast.walk(t)):
+                res.add(Finding("C10", "P.getattr", m.rel, "LocStackPattern.__getattr__", norm(st)[:100],
+                                f"`{norm(st)[:80]}` rewrites the attribute name before it becomes a field predicate: P.<name> no longer "
+                                "equals P['<name>'] for the rewritten names (field ids are matched literally)", st.lineno))
     # __getitem__: tuple -> one Or element; else one element
     fn = _meth(ci, "__getitem__")
     ps = func_params(fn)
